@@ -15,7 +15,8 @@ BOUNDS = ["dictionaries with <=2-3 keys drawn by selectors from a 4-name alphabe
           "(magnet family) and path.line.width (sensor family) with each of the four sources from a 4-value list incl. None; three notations; two successive assignments",
           "style_temp_edit around a real Cuboid with the resolved style of a show() call: show kwarg present / absent, drawing returns or raises, copy on/off (symbolic booleans)",
           "reset / last-assignment / independence: 11 default leaves and 6 magnet-style leaves from committed lists (incl. magnetization.arrow.size, which has a deprecated alias), "
-          "two values each, three notations, chosen by symbolic selectors; two successive updates"]
+          "two values each, three notations, chosen by symbolic selectors; two successive updates; constructor style argument followed by an assignment",
+          "one call mixing a nested dictionary and an underscore keyword (4-name alphabet); six valid non-leaf notations of a show() style keyword and four misspelled names"]
 CUTS = []
 ASSUMPTIONS = ["CrossHair 'Confirmed over all paths' within the per-condition timeout"]
 NOT_DECIDED = ["the sweep over all several hundred style leaves and families, colour / linestyle validators (regex and lookup tables on strings): only the committed leaf lists are decided"]
